@@ -38,10 +38,16 @@ def run(tier):
             ops = [dict(at=at, op='pause', target='r/t0#0@0.0'), dict(rel=at % 3, op='dup', method='start_task', task='r/t0#0'),
                    dict(rel=1, op='dup', method='start_task', task='r/t0#0'), dict(at=10 ** 6, op='resume', target='r/t0#0@0.0')]
             jobs.append(dict(prog=P, scheduler=('default', 'legacy')[at % 2], policy=engrun.POLICIES[1:][at % 7], seed=at, label='dup_paused', ops=ops))
+    # the result of a sub-workflow redelivered to its parent - while the parent is still running another branch, and later
+    for k, pol in enumerate(engrun.POLICIES[1:] * 2):
+        P = gen.sub_beside_long_branch(length=2 + k % 3)
+        P.oracle = dict(P.oracle, sub1x0=['ok'] if k % 3 else ['err'])
+        ops = [dict(at=a, op='dup', method='on_action_complete', wf_action=True) for a in range(8 + k % 4, 60, 5)]
+        jobs.append(dict(prog=P, scheduler=('default', 'legacy')[k % 2], policy=pol, seed=k + 1, label='dup_sub_result', ops=ops))
     from harness.checks import c06_executor
     return ec.run_property(PID, tier, jobs,
                            'generated programs with up to 2 messages (action results, start-task requests, start requests, run-action '
-                           'requests) re-delivered at random later points under 8 schedule policies and both schedulers; non-trivial = '
+                           'requests) re-delivered at random later points under 8 schedule policies and both schedulers; fixed histories: the start request of a PAUSED task redelivered, the result of a sub-workflow redelivered to its parent at several later points; non-trivial = '
                            'distinct runs in which at least one duplicate was actually delivered',
                            _nontrivial, strict=True,
                            model_behaviours=lambda d: ec.model_jobs(d, tier, sims=[(None, 2 if tier == 'quick' else 8, 0, 2, ())]),
